@@ -54,6 +54,16 @@ def zi_of(t):
         return z3.If(t.arg(0), a, b)
     return None
 
+def nonneg(k):
+    """syntactic check that Int term k is >= 0 (numerals, ite and sums of such)"""
+    k=z3.simplify(k)
+    if z3.is_int_value(k): return k.as_long()>=0
+    if not z3.is_app(k): return False
+    kind=k.decl().kind()
+    if kind==z3.Z3_OP_ITE: return nonneg(k.arg(1)) and nonneg(k.arg(2))
+    if kind==z3.Z3_OP_ADD: return all(nonneg(c) for c in k.children())
+    return False
+
 def canon(k, ty):
     """canonical representative of Int k in the value range of integer type ty"""
     w=ty.bitwidth
@@ -102,7 +112,8 @@ def cast(v, toty, ex=None):
                 iv=z3.BitVecVal(c.as_long(),64) if z3.is_int_value(c) and abs(c.as_long())<(1<<40) else None
                 return Val(toty, z3.ToReal(k), iv, 41)
             # value-preserving if the source range fits, else wrap
-            fits = (fr.signed==toty.signed and toty.bitwidth>=fr.bitwidth) or (not fr.signed and toty.signed and toty.bitwidth>fr.bitwidth)
+            fits = (fr.signed==toty.signed and toty.bitwidth>=fr.bitwidth) or (not fr.signed and toty.signed and toty.bitwidth>fr.bitwidth) \
+                   or (fr.signed and not toty.signed and toty.bitwidth>=fr.bitwidth and nonneg(k))
             return mathint(k if fits else canon(k,toty), toty)
     if is_int(fr) and is_int(toty):
         if toty.bitwidth == fr.bitwidth: return Val(toty, v.t)
@@ -313,7 +324,7 @@ def merge_vals(guards, vals):
 
 class Executor:
     def __init__(self, stubs=None, fpmode="fp", max_paths=20000, loop_bound=64, solver_prune=True):
-        self.fpmode=fpmode; self.trunc_defs=[]
+        self.fpmode=fpmode; self.trunc_defs=[]; self.interp_calls=[]
         self.stubs = stubs or {}     # py_func name -> callable(ex, state, args, sig) -> Val
         self.ircache=IRCACHE
         self.max_paths=max_paths; self.npaths=0
@@ -745,6 +756,8 @@ class Executor:
     LOGR=z3.Function("logr", z3.RealSort(), z3.RealSort())
     EXPR=z3.Function("expr", z3.RealSort(), z3.RealSort())
     EXP=z3.Function("exp", FPS, FPS)
+    INTERP=z3.Function("interp", FPS, FPS)
+    INTERPR=z3.Function("interpr", z3.RealSort(), z3.RealSort())
     POW=z3.Function("pow", FPS, FPS, FPS)
     LOG=z3.Function("log", FPS, FPS)
     def uf_pow(self, a, b):
@@ -907,6 +920,24 @@ class Executor:
             else: raise Unsupported("float min/max")
             if f is min: return Val(rt, simp(z3.If(lt,x.t,y.t)))
             return Val(rt, simp(z3.If(lt,y.t,x.t)))
+        if f is np.count_nonzero:
+            x=a[0]; h=state.heap[x.sid]; rt=unlit(sig.return_type)
+            if self.fpmode=='real':
+                ks=[zi_of(h[fi]) for _,fi in x.flat_indices()]
+                if all(k is not None for k in ks):
+                    return mathint(z3.Sum([z3.If(k!=0, 1, 0) for k in ks]) if ks else z3.IntVal(0), rt)
+            t=z3.BitVecVal(0,rt.bitwidth)
+            for _,fi in x.flat_indices():
+                t=t+z3.If(h[fi]!=0, z3.BitVecVal(1,rt.bitwidth), z3.BitVecVal(0,rt.bitwidth))
+            return Val(rt, simp(t))
+        if f is np.interp:
+            # table lookup with linear interpolation: uninterpreted in x for the given (xp, fp) table objects
+            x=cast(a[0], types.float64, self)
+            key=("interp", a[1].sid if hasattr(a[1],'sid') else id(a[1]), a[2].sid if hasattr(a[2],'sid') else id(a[2]))
+            self.interp_calls.append((key, x.t))
+            if getattr(self,'fpmode','fp')=='real':
+                return Val(types.float64, Executor.INTERPR(x.t))
+            return Val(types.float64, Executor.INTERP(x.t))
         if f is np.log or f is np.exp:
             x=cast(a[0], types.float64, self)
             if getattr(self,'fpmode','fp')=='real':
